@@ -169,36 +169,29 @@ func (set *Set) Move(destination *Set, e string) int {
 
 // The Intersection accepts limit parameter of type int and a list of sets whose intersects are to be calculated.
 // When limit is greater than 0, then the calculation will stop once the intersect cardinality reaches limit without
-// calculating the full intersect.
+// calculating the full intersect. The boolean result reports whether the calculation was stopped by the limit.
+// The result is always a new set: the operands are not modified and share nothing with it.
 func Intersection(limit int, sets ...*Set) (*Set, bool) {
-	// Use divide & conquer to get the set intersections
-	switch len(sets) {
-	case 1:
-		return sets[0], false
-	case 2:
-		intersection := NewSet([]string{})
-		var limitReached bool
-		for _, member := range sets[0].GetAll() {
-			if limit > 0 && intersection.Cardinality() >= limit {
-				limitReached = true
+	intersection := NewSet([]string{})
+	if len(sets) == 0 {
+		return intersection, false
+	}
+	for member := range sets[0].members {
+		if limit > 0 && intersection.Cardinality() >= limit {
+			return intersection, true
+		}
+		inAll := true
+		for _, other := range sets[1:] {
+			if !other.Contains(member) {
+				inAll = false
 				break
 			}
-			if sets[1].Contains(member) {
-				intersection.Add([]string{member})
-			}
 		}
-		return intersection, limitReached
-	default:
-		left, stop := Intersection(limit, sets[0:len(sets)/2]...)
-		if stop { // Check if limit is reached by left, if it is, return left
-			return left, stop
+		if inAll {
+			intersection.Add([]string{member})
 		}
-		right, stop := Intersection(limit, sets[len(sets)/2:]...)
-		if stop { // Check if limit is reached by right, if it is, return right
-			return right, stop
-		}
-		return Intersection(limit, left, right)
 	}
+	return intersection, false
 }
 
 // Union takes a slice of sets and generates a union.
